@@ -108,7 +108,8 @@ fn direct(c: &DirectCase, ev: &mut Ev) -> Outcome {
 }
 
 fn direct_case() -> impl Strategy<Value = DirectCase> {
-    (helix_params(), -3.0f64..=3.0, (-0.01f64..=0.01, -0.01f64..=0.01, -0.01f64..=0.01), prop::bool::weighted(0.8), (0.1092f64..=0.182, 0.0..(2.0 * PI), -1.152f64..=1.152))
+    let off = || prop_oneof![10 => -0.01f64..=0.01, 1 => Just(0.0f64)];
+    (helix_params(), prop_oneof![10 => -3.0f64..=3.0, 1 => Just(0.0f64), 1 => Just(PI), 1 => Just(-PI)], (off(), off(), off()), prop::bool::weighted(0.8), (0.1092f64..=0.182, 0.0..(2.0 * PI), -1.152f64..=1.152))
         .prop_map(|(helix, s, off, near, free)| DirectCase { helix: fx6(helix), s: Fx(s), off: [Fx(off.0), Fx(off.1), Fx(off.2)], near, free: [Fx(free.0), Fx(free.1), Fx(free.2)] })
 }
 
@@ -235,7 +236,7 @@ fn helix_only() -> impl Strategy<Value = PointsCase> {
 
 fn run(r: &Run) {
     let t = r.tier;
-    r.prop("closest_t_direct", t.pick(12_000, 1_000_000), direct_case, direct);
+    r.prop("closest_t_direct", t.pick(40_000, 2_000_000), direct_case, direct);
     r.prop("closest_t_kepler_coordinates", t.pick(60_000, 3_000_000), kepler_case, kepler);
     r.prop("fitted_tracks_and_vertices", t.pick(400, 20_000), helix_only, fitted);
 }
